@@ -207,3 +207,35 @@ impl PriceFeed {
             .map_err(|_| error!(CoreError::InvalidPriceFeedPrice))
     }
 }
+
+// verif hooks (g5): add-only, cfg-guarded thin wrappers. No logic of their own.
+#[cfg(gmsol_verif)]
+impl PriceFeed {
+    /// Calls `PriceFeed::update`.
+    pub fn verif_update(
+        &mut self,
+        price: &PriceFeedPrice,
+        max_future_excess: u64,
+        idempotent: bool,
+    ) -> Result<bool> {
+        self.update(price, max_future_excess, idempotent)
+    }
+
+    /// Calls `PriceFeed::check_and_get_price` and returns the parts as a tuple
+    /// `(oracle_slot, oracle_ts, price, ref_price, is_open)`.
+    pub fn verif_check_and_get_price(
+        &self,
+        clock: &Clock,
+        token_config: &TokenConfig,
+        allow_closed: bool,
+    ) -> Result<(u64, i64, gmsol_utils::Price, Option<Decimal>, bool)> {
+        let parts = self.check_and_get_price(clock, token_config, allow_closed)?;
+        Ok((
+            parts.oracle_slot,
+            parts.oracle_ts,
+            parts.price,
+            parts.ref_price,
+            parts.is_open,
+        ))
+    }
+}
